@@ -183,13 +183,20 @@ def main():
             return
         rng = random.Random(task.get("seed", 0) * 1000003 + hash(task["contract"]) % 1000)
         # ---- 1. the proof
-        run = prove(C, case, reg, contracts, lib)
-        out["obligations"] = [o.as_dict() for o in run.obls.values()]
-        out["npaths"] = run.npaths
-        out["solver_s"] = round(run.solver_s, 3)
-        out["relies_on"] = sorted(run.relies_on)
+        proof_error = None
+        try:
+            run = prove(C, case, reg, contracts, lib)
+            out["obligations"] = [o.as_dict() for o in run.obls.values()]
+            out["npaths"] = run.npaths
+            out["solver_s"] = round(run.solver_s, 3)
+            out["relies_on"] = sorted(run.relies_on)
+            unproved = [o for o in run.obls.values() if o.verdict != "proved"]
+        except CheckerError as e:
+            # the (changed) code left the verified subset: no verdict from the verifier; the native contract evaluation
+            # below still runs, so that a failing input against the real code is reported if one is found
+            proof_error = "CHECKER-ERROR %s" % e
+            unproved = [None]
         out["lib_used"] = sorted(lib.used)
-        unproved = [o for o in run.obls.values() if o.verdict != "proved"]
         # ---- 2. native sampling: vacuity guard, differential cross-check, search for failing inputs
         tier = task.get("tier", "quick")
         want = (12 if tier == "quick" else 80) if not unproved else 200
@@ -210,7 +217,7 @@ def main():
                     break
         out["cover"]["normal"] = n_normal
         out["cover"]["raise"] = n_raise
-        if C.crosscheck:
+        if C.crosscheck and proof_error is None:
             k = 4 if tier == "quick" else 25
             for nargs in samples[:k]:
                 try:
@@ -221,7 +228,9 @@ def main():
                 if d is not None:
                     out["crosscheck"]["disagreements"].append({"args": N.encode(nargs), "what": d})
         # ---- 3. unproved obligations: quantifier-free refutation search
-        if unproved and not out["refutations"] and C.refute:
+        if proof_error is not None:
+            out["error"] = proof_error
+        if unproved and not out["refutations"] and C.refute and proof_error is None:
             found, tried = refute_by_shapes(C, case, reg, contracts, lib, deadline=t0 + task.get("budget_s", 240) * 0.8)
             out["cover"]["shapes_tried"] = tried
             for f in found:
